@@ -13,6 +13,11 @@
   which regime is in force is reported by the driver op `npz_config` and replayed on the real code by
   harness/c14.py.
 
+  The consistency checks of the two constructors `load_npz` reaches (`Gen.cooCtorChecks`, `Gen.shapeEltOk`,
+  `Gen.gcxsCtorChecks`, `Gen.gcxsShapeEltOk`) are translated from `COO.__init__`, `SparseArray.__init__` and
+  `GCXS.__init__` on every run (tools/targets.d/C14.py); the theorems go through lemmas that unfold them, so
+  a change of any check makes the theorems below fail to check.
+
   What is assumed, not proved: the zip/npy container (`Container`) is NumPy's and zlib's.  The two
   theorems about damaged files take its behaviour as explicit hypotheses.
 -/
@@ -51,15 +56,11 @@ theorem npz_roundtrip_partial (axesOk : List Int → Bool) (x : Arr α)
     have hw := writeList_gcxs e s d i p ca f hcls
     cases ca with
     | some l =>
-      obtain ⟨hl0, hl1, hl2, hl3, hl4⟩ := hwf
+      have hl0 : l ≠ [] := hwf.2.2.1
       have hdec : decodeAxes l = some l := by simp [decodeAxes, hl0]
-      have hrange : ¬ ∃ x, x ∈ l ∧ (0 ≤ x → (s.length : Int) ≤ x) := by
-        intro ⟨a, ha, hb⟩
-        have := hl4 a ha
-        have := hb this.1
-        omega
+      have hctor := gcxsCtor_wf axesOk e s d i p (some l) (some l) f hwf (Or.inl rfl) (fun h => absurd h (by simp))
       simp [roundtrip, save, hw, collect, Arr.attr, encAxes, load, Gen.npzRequire, loadFrom, fetchAll, lookup,
-        construct, gcxsCtor, checkAxes, normAxes, hdec, hl0, hl1, hl2, hl3, hrange, Arr.norm]
+        construct, hdec, hctor, Arr.norm]
     | none =>
       have hflags : Gen.npzNoneAxesAsEmpty = true ∧ Gen.npzEmptyAxesAsNone = true := by
         apply Classical.byContradiction
@@ -68,8 +69,9 @@ theorem npz_roundtrip_partial (axesOk : List Int → Bool) (x : Arr α)
       obtain ⟨h1, h3⟩ := hflags
       have henc : (encAxes none : Payload α) = .ints [] := by simp [encAxes, h1]
       have hdec : decodeAxes [] = none := by simp [decodeAxes, h3]
+      have hctor := gcxsCtor_wf axesOk e s d i p none none f hwf (Or.inl rfl) (fun _ => by simp [checkAxes])
       simp [roundtrip, save, hw, collect, Arr.attr, henc, load, Gen.npzRequire, loadFrom, fetchAll, lookup,
-        construct, gcxsCtor, checkAxes, normAxes, hdec, Arr.norm]
+        construct, hdec, hctor, Arr.norm]
 
 /-- **npz_roundtrip_coo.** COO arrays of every rank (0-d included), pattern, fill value: exact round trip,
 unconditionally. -/
@@ -154,39 +156,158 @@ theorem load_no_defaulting (axesOk : List Int → Bool) (m : Members α) (y : Ar
   obtain ⟨hall, hfrom⟩ := fetchAll_ok_lookup hf
   refine ⟨b, hb, ?_, hall, ?_⟩
   all_goals
-    unfold construct at hc
-    split at hc
-    · rename_i hcls
-      split at hc
-      · rename_i c d s v h1 h2 h3 h4
-        unfold cooCtor at hc
-        dsimp only at hc
-        split at hc
-        · exact absurd hc (by simp)
-        · split at hc
-          · exact absurd hc (by simp)
-          · split at hc
-            · exact absurd hc (by simp)
-            · simp only [Except.ok.injEq] at hc
-              subst hc
-              first
-                | exact hcls
-                | exact ⟨hfrom _ _ h3, hfrom _ _ h2, hfrom _ _ h4, c, hfrom _ _ h1, rfl⟩
-      · exact absurd hc (by simp)
-    · split at hc
-      · rename_i hcls
-        split at hc
-        · rename_i d i p ca s v h1 h2 h3 h4 h5 h6
-          unfold gcxsCtor at hc
-          split at hc
-          · exact absurd hc (by simp)
-          · simp only [Except.ok.injEq] at hc
-            subst hc
-            first
-              | exact hcls
-              | exact ⟨rfl, hfrom _ _ h5, hfrom _ _ h1, hfrom _ _ h6, hfrom _ _ h2, hfrom _ _ h3, ca, hfrom _ _ h4, rfl⟩
-        · exact absurd hc (by simp)
-      · exact absurd hc (by simp)
+    rcases construct_ok hc with ⟨hcls, c, d, s, v, h1, h2, h3, h4, hy⟩ | ⟨hcls, d, i, p, ca, s, v, h1, h2, h3, h4, h5, h6, hy⟩
+    · obtain ⟨_, _, _, hy⟩ := (cooCtor_ok_iff c d s v y).mp hy
+      subst hy
+      first
+        | exact hcls
+        | exact ⟨hfrom _ _ h3, hfrom _ _ h2, hfrom _ _ h4, c, hfrom _ _ h1, rfl⟩
+    · obtain ⟨_, _, _, hy⟩ := (gcxsCtor_ok_iff axesOk d i p (decodeAxes ca) s v y).mp hy
+      subst hy
+      first
+        | exact hcls
+        | exact ⟨rfl, hfrom _ _ h5, hfrom _ _ h1, hfrom _ _ h6, hfrom _ _ h2, hfrom _ _ h3, ca, hfrom _ _ h4, rfl⟩
+
+/-! ## what load_npz accepts is a consistent array -/
+
+/-- **load_accepted_wf.** Whatever member map `load_npz` accepts — any member map, written by `save_npz` or
+not — the array it returns satisfies the structural invariant of its format: every extent is non-negative;
+for COO there is one coordinate row per dimension and one value per coordinate column (every rank, 0-d
+included); for GCXS there is one value per stored index (one dimension and up) and, with two dimensions and
+up, `compressed_axes` is a non-empty admissible list of in-range axes that does not name every dimension,
+`len(indptr)` is the number of compressed rows plus one, `indptr[0] = 0` and `indptr[-1] = len(indices)`.
+So a file whose members are inconsistent in any of these respects is rejected, never loaded.
+(`hm`: the `coords` member NumPy hands over is a genuine 2-d array.) -/
+theorem load_accepted_wf (axesOk : List Int → Bool) (m : Members α) (y : Arr α)
+    (hm : ∀ c, lookup m "coords" = some (.mat c) → c.WF) (h : load axesOk m = .ok y) : y.WF axesOk := by
+  obtain ⟨b, _, f, hf, hc⟩ := loadFrom_ok_branch h
+  obtain ⟨_, hfrom⟩ := fetchAll_ok_lookup hf
+  rcases construct_ok hc with ⟨_, c, d, s, v, h1, _, _, _, hy⟩ | ⟨_, d, i, p, ca, s, v, _, _, _, _, _, _, hy⟩
+  · obtain ⟨hnn, hd, hn, hy⟩ := (cooCtor_ok_iff c d s v y).mp hy
+    subst hy
+    exact ⟨hnn, fixCoords_preserves_wf s c (hm c (hfrom _ _ h1)), hn.symm, hd⟩
+  · obtain ⟨hax, hnn, hst, hy⟩ := (gcxsCtor_ok_iff axesOk d i p (decodeAxes ca) s v y).mp hy
+    subst hy
+    refine ⟨hnn, hst, ?_⟩
+    cases hca : normAxes s (decodeAxes ca) with
+    | none => trivial
+    | some l =>
+      unfold normAxes at hca
+      split at hca
+      · exact absurd hca (by simp)
+      · rename_i h1d
+        rw [hca] at hax
+        obtain ⟨a1, a2, a3, a4⟩ := (checkAxes_ok_iff axesOk s.length (some l)).mp hax
+        exact ⟨a1, a2, h1d, a3, a4⟩
+
+/-- **load_accepted_roundtrips.** An accepted member map describes an array `save_npz` can write and
+`load_npz` reads back unchanged: if `load_npz` returns `y` for `m` then `load_npz(save_npz(y)) = y` (outside
+the `Excluded` region of the round trip, which is empty once `None` axes are stored as an empty array).  So
+`load_npz` never produces an array that the persistence format itself cannot represent. -/
+theorem load_accepted_roundtrips (axesOk : List Int → Bool) (m : Members α) (y : Arr α)
+    (hm : ∀ c, lookup m "coords" = some (.mat c) → c.WF) (h : load axesOk m = .ok y) (hex : ¬ Excluded y) :
+    roundtrip axesOk y = .ok y := by
+  have hwf := load_accepted_wf axesOk m y hm h
+  have hn : y.norm = y := by
+    obtain ⟨_, _, _, _, hff⟩ := load_no_defaulting axesOk m y h
+    cases y with
+    | coo s c d f => rfl
+    | gcxs e s d i p ca f => obtain ⟨he, _⟩ := hff; subst he; rfl
+  have := npz_roundtrip_partial axesOk y hwf hex
+  rwa [hn] at this
+
+/-- **gcxs_count_damage_rejected.** Take the file of any well-formed GCXS array of two or more dimensions and
+replace ONE of the members `data`, `indices`, `indptr` by anything with a different number of entries (what a
+damaged `shape` field in that member's npy header produces; no assumption on the container, the checksum
+included): `load_npz` raises.  Before the constructor validated its arguments such a file loaded as an
+inconsistent array. -/
+theorem gcxs_count_damage_rejected (axesOk : List Int → Bool) (e : Bool) (s : List Int) (d : List α)
+    (i p l : List Int) (f : α) (hwf : (Arr.gcxs e s d i p (some l) f).WF axesOk)
+    (hex : ¬ Excluded (Arr.gcxs e s d i p (some l) f))
+    (m : Members α) (hs : save (Arr.gcxs e s d i p (some l) f) = .ok m) (m' : Members α) (k : String)
+    (hk : k = "data" ∨ k = "indices" ∨ k = "indptr")
+    (hsame : ∀ k' ∈ vocabulary, k' ≠ k → lookup m' k' = lookup m k')
+    (hcount : ∀ q q', lookup m k = some q → lookup m' k = some q' → q'.count ≠ q.count) :
+    ∃ err, load axesOk m' = .error err := by
+  cases hload : load axesOk m' with
+  | error err => exact ⟨err, rfl⟩
+  | ok y =>
+    exfalso
+    have hcls : e = true ∨ gcxsExactTest = false := by
+      cases e
+      · right
+        cases hg : gcxsExactTest
+        · rfl
+        · exact absurd (Or.inl ⟨rfl, hg⟩) hex
+      · left; rfl
+    have hw := writeList_gcxs e s d i p (some l) f hcls
+    simp [save, hw, collect, Arr.attr, encAxes] at hs
+    subst hs
+    obtain ⟨hnn, ⟨hst1, hst2⟩, hl0, hl1, hl2, hl3, hl4⟩ := hwf
+    have hs2 : 2 ≤ s.length := wf_axes_two_dims hl0 hl2 hl4
+    have hsne : s ≠ [] := by intro h0; subst h0; simp at hs2
+    obtain ⟨l0, hl0', hp1, _, _⟩ := hst2 hs2
+    simp only [Option.some.injEq] at hl0'
+    subst hl0'
+    have hdi := hst1 hsne
+    -- the loaded array: its fields are the members of m'
+    have hwf' := load_accepted_wf axesOk m' y (fun c hc => by
+      have : lookup m' "coords" = none := by
+        rw [hsame "coords" (by decide) (by rcases hk with h | h | h <;> subst h <;> decide)]; simp [lookup]
+      rw [this] at hc; exact absurd hc (by simp)) hload
+    obtain ⟨b, hb, hbc, hall, hff⟩ := load_no_defaulting axesOk m' y hload
+    cases y with
+    | coo s' c' d' f' =>
+      obtain ⟨_, _, _, c0, hc0, _⟩ := hff
+      have : lookup m' "coords" = none := by
+        rw [hsame "coords" (by decide) (by rcases hk with h | h | h <;> subst h <;> decide)]; simp [lookup]
+      rw [this] at hc0; exact absurd hc0 (by simp)
+    | gcxs e' s' d' i' p' ca' f' =>
+      obtain ⟨_, hms, hmd, _, hmi, hmp, la, hma, hca'⟩ := hff
+      obtain ⟨_, ⟨hst1', hst2'⟩, _⟩ := hwf'
+      rcases hk with hk | hk | hk <;> subst hk
+      · -- data
+        rw [hsame "shape" (by decide) (by decide)] at hms
+        rw [hsame "indices" (by decide) (by decide)] at hmi
+        simp [lookup] at hms hmi
+        subst hms; subst hmi
+        have := hcount (.vals d) (.vals d') (by simp [lookup]) hmd
+        simp [Payload.count] at this
+        have := hst1' hsne
+        omega
+      · -- indices
+        rw [hsame "shape" (by decide) (by decide)] at hms
+        rw [hsame "data" (by decide) (by decide)] at hmd
+        simp [lookup] at hms hmd
+        subst hms; subst hmd
+        have := hcount (.ints i) (.ints i') (by simp [lookup]) hmi
+        simp [Payload.count] at this
+        have := hst1' hsne
+        omega
+      · -- indptr
+        rw [hsame "shape" (by decide) (by decide)] at hms
+        rw [hsame "compressed_axes" (by decide) (by decide)] at hma
+        simp [lookup] at hms hma
+        subst hms; subst hma
+        have hdec : decodeAxes l = some l := by simp [decodeAxes, hl0]
+        have hna : normAxes s (some l) = some l := by simp [normAxes, hl2]
+        rw [hdec, hna] at hca'
+        subst hca'
+        obtain ⟨l1, hl1', hp1', _, _⟩ := hst2' hs2
+        simp only [Option.some.injEq] at hl1'
+        subst hl1'
+        have := hcount (.ints p) (.ints p') (by simp [lookup]) hmp
+        simp [Payload.count] at this
+        omega
+
+/-- **load_contents_unchecked.** The limit of the validation: the consistency checks are constant-time, so a
+member set whose lengths and end pointers are consistent but whose index *contents* are not (out-of-range
+index, non-monotone `indptr`) is loaded literally (`load_no_defaulting`): the result is well formed in the
+sense of `load_accepted_wf` and nothing more.  (`uncheckedWitness`, Model/Npz.lean: an index far outside the
+2×2 array, `indptr = [0, 3, 2]`; harness/c14.py replays it on the real `load_npz`.) -/
+theorem load_contents_unchecked :
+    load strictlyIncreasing uncheckedWitness = .ok (.gcxs true [2, 2] [5, 7] [9, -4] [0, 3, 2] (some [0]) 0) := by
+  decide
 
 /-- **load_determined.** Two member maps that agree on the seven names `load_npz` asks for load the same
 array (or both fail the same way): no other content of the file influences the result. -/
@@ -341,6 +462,13 @@ example : exGcxs.WF strictlyIncreasing ∧ ¬ Excluded exGcxs ∧ roundtrip stri
 /-- a member set that is not an image of `save_npz` (no `fill_value`) is rejected; one with all members is loaded literally -/
 example : load strictlyIncreasing ([("coords", .mat ⟨1, 1, [[0]]⟩), ("data", .vals [4]), ("shape", .ints [2])] : Members Int)
     = .error .runtime := by decide
+/-- the hypotheses of `gcxs_count_damage_rejected` are satisfiable: `exGcxs` with its `indptr` member cut short is rejected -/
+example : load strictlyIncreasing ([("data", .vals [5, -7]), ("shape", .ints [2, 3, 2]), ("fill_value", .val 3),
+    ("indices", .ints [2, 0]), ("indptr", .ints [0, 1, 1, 2]), ("compressed_axes", .ints [0, 2])] : Members Int)
+    = .error .value := by decide
+/-- a 0-d COO member set with two values (accepted before the constructor checked every shape) is rejected -/
+example : load strictlyIncreasing ([("coords", .mat ⟨0, 1, []⟩), ("data", .vals [4, 4]), ("shape", .ints []), ("fill_value", .val 0)] : Members Int)
+    = .error .value := by decide
 example : (∀ e ∈ [255], (⟨8, false⟩ : IntTy).fits e) ∧ ¬ (⟨8, false⟩ : IntTy).fits 256 ∧ (⟨8, true⟩ : IntTy).wrap 200 = -56 := by decide
 
 end SparseV.C14
